@@ -942,13 +942,13 @@ def _check_hessqr(H4):
     sc = max(1.0, rt.fro(H4))
     if Wq.shape[:2] != (m, m) or Rq.shape[:2] != (m, n):
         return {"what": "shapes of W / R", "W": Wq.shape, "R": Rq.shape}
-    if rt.fro(rt.qmm(rt.qH(Wq), Wq) - rt.eye4(m)) > 1e-11:
+    if not (rt.fro(rt.qmm(rt.qH(Wq), Wq) - rt.eye4(m)) <= 1e-11):
         return {"what": "W is not unitary", "err": rt.fro(rt.qmm(rt.qH(Wq), Wq) - rt.eye4(m))}
-    if rt.fro(rt.qmm(Wq, Rq) - H4) > 1e-11 * sc:
+    if not (rt.fro(rt.qmm(Wq, Rq) - H4) <= 1e-11 * sc):
         return {"what": "W R != H", "err": rt.fro(rt.qmm(Wq, Rq) - H4)}
     for i in range(m):
         for j in range(min(i, n)):
-            if np.linalg.norm(Rq[i, j]) > 1e-11 * sc:
+            if not (np.linalg.norm(Rq[i, j]) <= 1e-11 * sc):
                 return {"what": "R is not upper triangular", "i": i, "j": j, "value": Rq[i, j]}
     return None
 
@@ -983,7 +983,7 @@ def bounded(rep: Report, tier, seed):
             H4 = rng.standard_normal((k + 1, k, 4))
             for i in range(k + 1):
                 for j in range(k):
-                    if i > j + 1:
+                    if not (i <= j + 1):
                         H4[i, j] = 0
             if pat == "arnoldi":
                 for j in range(k):
